@@ -16,6 +16,7 @@
 #include <gvt/fossil.h>
 #include <log/stats.h>
 #include <mm/msg_allocator.h>
+#include <verif_hooks.h>
 
 static void worker_thread_init(rid_t this_rid)
 {
@@ -40,7 +41,9 @@ static void worker_thread_init(rid_t this_rid)
 
 static void worker_thread_fini(void)
 {
+	VERIF_TRACE(VT_STAGE, 2, 0, 0, 0);
 	gvt_msg_drain();
+	VERIF_TRACE(VT_STAGE, 7, 0, 0, 0);
 
 	if(sync_thread_barrier()) {
 		stats_dump();
@@ -51,6 +54,7 @@ static void worker_thread_fini(void)
 	}
 
 	lp_fini();
+	VERIF_TRACE(VT_STAGE, 8, 0, 0, 0);
 	msg_queue_fini();
 	sync_thread_barrier();
 	msg_allocator_fini();
@@ -59,6 +63,7 @@ static void worker_thread_fini(void)
 static thrd_ret_t THREAD_CALL_CONV parallel_thread_run(void *rid_arg)
 {
 	worker_thread_init((uintptr_t)rid_arg);
+	VERIF_TRACE(VT_STAGE, 1, 0, 0, 0);
 
 	while(likely(termination_cant_end())) {
 		mpi_remote_msg_handle();
@@ -69,6 +74,7 @@ static thrd_ret_t THREAD_CALL_CONV parallel_thread_run(void *rid_arg)
 
 		simtime_t current_gvt = gvt_phase_run();
 		if(unlikely(current_gvt != 0.0)) {
+			VERIF_TRACE(VT_GVT, verif_bits(current_gvt), 0, 0, 0);
 			termination_on_gvt(current_gvt);
 			auto_ckpt_on_gvt();
 			fossil_on_gvt(current_gvt);
